@@ -122,9 +122,6 @@ def infix_to_postfix(check: Check, rule: str = "PD") -> None:
             raise AnalysisError(f"{fn.qualname}: expected exactly one output queue that the token loop only appends to, found {sorted(outs)}")
         out_name = next(iter(outs))
         state_names = sorted(k for k, v in env0.items() if k != out_name and isinstance(v, (list, int, bool, type(None))) and not isinstance(v, Opaque))
-        if not isinstance(sp.loop.target, ast.Name):
-            raise AnalysisError(f"{fn.qualname}: token loop target is not a name")
-        tokvar = sp.loop.target.id
 
         def config_of(env: dict[str, Any]) -> tuple:
             return tuple((k, freeze(env[k])) for k in state_names)
@@ -138,7 +135,7 @@ def infix_to_postfix(check: Check, rule: str = "PD") -> None:
         def step(cfg: tuple, tok: Tok) -> Any:
             env = env_of(cfg)
             env[out_name] = [MARK]  # what is already in the queue: new symbols must come after it
-            env[tokvar] = tok
+            sp.bind(env, tok)
             ex.steps = 0
             try:
                 ex.block(sp.loop.body, env)
@@ -311,9 +308,9 @@ def parse_postfix(check: Check, rule: str = "PD2") -> None:
     try:
         sp = split_token_loop(ex, list(node.body), env0)
         stacks = [k for k, v in env0.items() if isinstance(v, list)]
-        if len(stacks) != 1 or not isinstance(sp.loop.target, ast.Name):
+        if len(stacks) != 1:
             raise AnalysisError(f"{fn.qualname}: expected exactly one node stack, found {stacks}")
-        sname, tokvar = stacks[0], sp.loop.target.id
+        sname = stacks[0]
 
         def leaf(i: int) -> Any:
             return MObj("Node", {"element": None, "variable": Tok("operand", tag=f"t{i}"), "constant": "nan", "left": None, "right": None})
@@ -365,7 +362,7 @@ def parse_postfix(check: Check, rule: str = "PD2") -> None:
                 n_cases += 1
                 env = dict(env0)
                 env[sname] = [leaf(i) for i in range(depth)]
-                env[tokvar] = tok
+                sp.bind(env, tok)
                 try:
                     ex.block(sp.loop.body, env)
                     got = ("next", freeze(env[sname]))
